@@ -319,6 +319,16 @@ def make_argdiffs(jargs, changed):
     return tuple(Diff.unknown_change(x) if ch else Diff.no_change(x) for x, ch in zip(jargs, changed))
 
 
+def has_IB(t):
+    """the type holds a flag or an index (anything a switch index can be computed from)"""
+    if t in ("I", "B"): return True
+    if isinstance(t, (tuple, list)):
+        if t[0] == "T": return any(has_IB(x) for x in t[1])
+        if t[0] == "A": return has_IB(t[2])
+        if t[0] == "M": return has_IB(t[1])
+    return False
+
+
 def new_args(rng, case, G, cur_args):
     """(args, changed flags): honest tagging — a changed value is always tagged changed, an unchanged one either way"""
     args, changed = [], []
@@ -628,8 +638,8 @@ def run_case(case):
                 if has(core, ("switch",)):
                     # the switch region: index (and the flag an or_else index is computed from) unchanged and tagged
                     # NoChange (index changes: known finding K19)
-                    nargs = [(a0 if t in ("I", "B") else a1) for a0, a1, t in zip(cur_args, nargs, case["argt"])]
-                    changed = [(False if t in ("I", "B") else c_) for c_, t in zip(changed, case["argt"])]
+                    nargs = [(a0 if has_IB(t) else a1) for a0, a1, t in zip(cur_args, nargs, case["argt"])]
+                    changed = [(False if has_IB(t) else c_) for c_, t in zip(changed, case["argt"])]
             eseed = case["keyseed"] + 101 * (ei + 1)
             try:
                 njargs = tuple(gfi.to_jax(v, t, st) for v, t, st in zip(nargs, case["argt"], case["stages"]))
@@ -657,7 +667,7 @@ def run_case(case):
             # C08: the same edit under the other honest tagging of the unchanged arguments gives the same result
             alt = [(c_ if a0 != a1 else (not c_)) for c_, a0, a1 in zip(changed, cur_args, nargs)]
             if has(core, ("switch",)):
-                alt = [(False if (t_ in ("I", "B") and a0 == a1) else c_) for c_, t_, a0, a1 in zip(alt, case["argt"], cur_args, nargs)]
+                alt = [(False if (has_IB(t_) and a0 == a1) else c_) for c_, t_, a0, a1 in zip(alt, case["argt"], cur_args, nargs)]
             if kind == "index" or noship:
                 alt = list(changed)
             if alt != changed:
